@@ -448,15 +448,48 @@ func c19Listing(c *Ctx) {
 // finAcceptSuppressesPanic: the panic of MustCopyWithState is guarded by a boolean flag (phi); on the path from the
 // true edge of IsFinState(state) the flag receives the constant that makes the panic branch untaken.
 func finAcceptSuppressesPanic(fn *ssa.Function, call ssa.CallInstruction) bool {
-	te := ssax.BoolEdgesOfCall(fn, call, -1, true)
-	if len(te) != 1 {
-		return false
-	}
-	b := te[0].From.Succs[te[0].Succ]
 	pns := panics(fn)
 	if len(pns) == 0 {
 		return false
 	}
+	te := ssax.BoolEdgesOfCall(fn, call, -1, true)
+	if len(te) == 0 {
+		// `return f.IsFinState(state)` in a helper / `exists = f.IsFinState(state)`: the call's result itself is one
+		// alternative of the flag; the panic must be reachable only when the flag is false
+		cv, _ := call.(ssa.Value)
+		if cv == nil {
+			return false
+		}
+		for _, pn := range pns {
+			ok := false
+			for _, cd := range ssax.Conds(fn) {
+				if cd.Op != 0 {
+					continue
+				}
+				phi, isPhi := ssax.Resolve(cd.X).(*ssa.Phi)
+				if !isPhi {
+					continue
+				}
+				e, _ := cd.BoolEdge(false)
+				if ssax.ReachableAvoiding(fn, pn, []ssax.Edge{e}, nil) {
+					continue // the panic is reachable with the flag true
+				}
+				for _, ev := range phi.Edges {
+					if ssax.Resolve(ev) == cv {
+						ok = true
+					}
+				}
+			}
+			if !ok {
+				return false
+			}
+		}
+		return true
+	}
+	if len(te) != 1 {
+		return false
+	}
+	b := te[0].From.Succs[te[0].Succ]
 	for _, pn := range pns {
 		ok := false
 		for _, cd := range ssax.Conds(fn) {
